@@ -302,8 +302,18 @@ pub fn run_c17(cfg: &Cfg) -> i32 {
             let e = exprs[r.below(exprs.len())].clone();
             exprs.push(e);
         }
-        // faults on queries those expressions will cause
+        // servers differ in how they answer for a set that exists but expands to nothing (`D`, or
+        // `C` without data): one case in four runs against the second kind, with such a set in play
         let mut faults = Faults::default();
+        if r.chance(1, 4) {
+            faults.empty_set_is_success = true;
+            database.as_sets.insert("AS-VH-EMPTY".into(), vec![]);
+            let at = r.below(exprs.len().min(3) + 1);
+            let e = if r.chance(1, 2) { Expr::AsSet("AS-VH-EMPTY".into()) } else { Expr::Or(Box::new(Expr::AsSet("AS-VH-EMPTY".into())), Box::new(exprs[0].clone())) };
+            exprs.insert(at, e);
+            rep.count("sequences_against_a_server_answering_C_for_empty_sets");
+        }
+        // faults on queries those expressions will cause
         let mut candidates: Vec<String> = Vec::new();
         for e in &exprs {
             let names = expr::referenced_names(e, &database);
